@@ -135,10 +135,16 @@ def op_list_length(rng, m):
     n = len(e.all_descs())
     reps = [d for d, kind, ti, a in e.all_descs() if kind == "repeat"]
     d = rng.choice(reps)
-    k = rng.choice([n - 1, n + 1, n + 3]) if n > 2 else n + 1
-    if k < 2:
+    k = rng.choice([n - 1, n + 1, n + 3, max(2, n // 2)]) if n > 2 else n + 1
+    if k < 2 or k == n:
         k = n + 1
     d.weight = [1.0] * k
+    # another descriptor of the same object keeps / gets a list of the CORRECT length: every list must be checked, not one
+    others = [x for x in reps if x is not d]
+    if others and rng.random() < 0.7:
+        o = rng.choice(others)
+        if o.transitions is None or len(o.transitions) != n:
+            o.weight = [1.0] * n
     return "molecule", m.to_text(), "construct"
 
 
